@@ -25,6 +25,11 @@ def cli_runs(ctx):
     for j, (m, w, mode) in enumerate([(7, 0, "s2m"), (7, 8, "m2s"), (10, 25, "s2m"), (28, 0, "m2s"), (28, 40, "s2m"), (12, 13, "m2s")]):
         fa = ctx.path("mincli_%d.fa" % j)
         vlib.kvh(["gen", "fasta", ctx.seed * 17 + j, 8, 160, fa])
+        # names need not be unique: the first two records once more, under their own names, at the end of the file
+        with open(fa, "rb") as f:
+            lines = f.read().split(b"\n")
+        with open(fa, "ab") as f:
+            f.write(b"\n".join(lines[:4]) + b"\n")
         out = ctx.path("mincli_%d.out" % j)
         if os.path.exists(out):
             os.remove(out)
